@@ -48,7 +48,7 @@ def configs(fmt, quick):
             ("two-items", ("ssc", S8, 2, 2, 0, 0, True)),
             ("chart", ("ssc", S8, 1, 1, 1, 1, True)),
             ("chart-rich", ("ssc", [97], 1, 1, 1, 2, False)),
-            ("two-charts", ("ssc", [97], 1, 0, 2, 1, False))]
+            ("two-charts", ("ssc", [97], 1, 0, 2, 3, False))]
 
 
 # ---- S2C --------------------------------------------------------------------------------------
